@@ -12,9 +12,12 @@ in the middle of C calls; per-thread observations are compared with the Coq mode
 and the property is decided on the implementation against the one-cell specification and against
 the same programs run without interleaving.
 """
+import ast
 import concurrent.futures
+import os
+import re
 
-from lib import vlib
+from lib import vlib, py2coq
 
 ID = "C22"
 OVERFLOW = -999999
@@ -23,6 +26,242 @@ SET_VALUES = [0, 1, 2, 11, 13, 22, 34, 95, 255, 1000, 65535, 12345678, -1, -2, -
               INT_MAX - 1, INT_MIN + 1]
 OVER_VALUES = [INT_MAX + 1, INT_MIN - 1, 2 ** 32, 2 ** 63, -2 ** 63, 2 ** 64 + 5, -2 ** 40]
 C_VALUES = [0, 1, 2, 4, 9, 11, 17, 28, 32, 110, 4095, -1, -7, INT_MAX, INT_MIN, 424242]
+
+
+# ------------------------------------------------------------------ regeneration of the bracketing facts (tie A)
+
+U = py2coq.Untranslatable
+
+
+def _src(rel):
+    with open(os.path.join(vlib.REPO, "src", rel)) as f:
+        return f.read()
+
+
+def _nocomment(text):
+    text = re.sub(r"/\*.*?\*/", " ", text, flags=re.S)
+    return re.sub(r"//[^\n]*", " ", text)
+
+
+def _one(pattern, text, what, flags=re.S):
+    ms = list(re.finditer(pattern, text, flags))
+    if len(ms) != 1:
+        raise U("%s: expected exactly one match, found %d" % (what, len(ms)))
+    return ms[0]
+
+
+def _body(text, header_re, what):
+    """text of the brace-balanced body that follows the unique match of header_re"""
+    m = _one(header_re, text, what)
+    i = text.index("{", m.end() - 1)
+    depth, j = 0, i
+    while True:
+        if text[j] == "{":
+            depth += 1
+        elif text[j] == "}":
+            depth -= 1
+            if depth == 0:
+                return text[i + 1:j]
+        j += 1
+        if j >= len(text):
+            raise U(what + ": unbalanced braces")
+
+
+def _stmts(region):
+    return [" ".join(x.split()) for x in re.split(r"[;{}]", region) if x.strip()]
+
+
+def _bracket(region, foreign_re, what, ignore=()):
+    out = []
+    for st in _stmts(region):
+        if st == "restore_errno()":
+            out.append("BRestore")
+        elif st == "save_errno()":
+            out.append("BSave")
+        elif re.search(foreign_re, st):
+            out.append("BForeign")
+        elif any(re.fullmatch(ig, st) for ig in ignore):
+            continue
+        else:
+            raise U("%s: unexpected statement %r" % (what, st))
+    return out
+
+
+def _allow_threads_region(text, anchor_re, what):
+    m = _one(anchor_re, text, what)
+    a = text.rfind("Py_BEGIN_ALLOW_THREADS", 0, m.start())
+    b = text.find("Py_END_ALLOW_THREADS", m.end())
+    if a < 0 or b < 0 or "Py_END_ALLOW_THREADS" in text[a:m.start()]:
+        raise U(what + ": not inside a Py_BEGIN/END_ALLOW_THREADS region")
+    return text[a + len("Py_BEGIN_ALLOW_THREADS"):b]
+
+
+def extract_facts():
+    f = {}
+    common = _nocomment(_src("c/misc_thread_common.h"))
+    m = _one(r"static\s+(__thread\s+)?int\s+cffi_saved_errno\s*=\s*0\s*;", common, "declaration of cffi_saved_errno")
+    f["gen_saved_thread_local"] = bool(m.group(1))
+    # the USE__THREAD variants are the ones defined before "#else"; their whole body must be the plain copy
+    use_thread = common[m.end():common.index("#else", m.end())]
+    b1 = " ".join(_body(use_thread, r"static\s+void\s+save_errno_only\s*\(\s*void\s*\)\s*\{", "save_errno_only").split())
+    f["gen_save_errno_only_copies_errno_to_saved"] = (b1 == "cffi_saved_errno = errno;")
+    b2 = " ".join(_body(use_thread, r"static\s+void\s+restore_errno_only\s*\(\s*void\s*\)\s*\{",
+                        "restore_errno_only").split())
+    f["gen_restore_errno_only_copies_saved_to_errno"] = (b2 == "errno = cffi_saved_errno;")
+    posix = _nocomment(_src("c/misc_thread_posix.h"))
+    _one(r"#\s*define\s+save_errno\s+save_errno_only\s*$", posix, "#define save_errno", re.M)
+    _one(r"#\s*define\s+restore_errno\s+restore_errno_only\s*$", posix, "#define restore_errno", re.M)
+    f["gen_posix_aliases"] = True
+    back = _nocomment(_src("c/_cffi_backend.c"))
+    f["gen_b_call"] = _bracket(_allow_threads_region(back, r"\bffi_call\s*\(", "ffi_call in b_call"),
+                               r"^ffi_call\s*\(", "b_call")
+    body = _body(back, r"static\s+void\s+invoke_callback\s*\([^)]*\)\s*\{", "invoke_callback")
+    f["gen_invoke_callback"] = _bracket(body, r"^general_invoke_callback\s*\(", "invoke_callback",
+                                        ignore=(r"PyGILState_STATE state = gil_ensure\(\)", r"gil_release\(state\)"))
+    body = _body(back, r"static\s+PyObject\s*\*\s*b_get_errno\s*\([^)]*\)\s*\{", "b_get_errno")
+    seq = []
+    for st in _stmts(body):
+        if st == "int err":
+            continue
+        elif st == "restore_errno_only()":
+            seq.append("ERestoreOnly")
+        elif st == "err = errno":
+            seq.append("EReadErrno")
+        elif st == "errno = 0":
+            seq.append("EZeroErrno")
+        elif st == "return PyLong_FromLong(err)":
+            continue
+        else:
+            raise U("b_get_errno: unexpected statement %r" % st)
+    f["gen_get_errno"] = seq
+    body = _body(back, r"static\s+PyObject\s*\*\s*b_set_errno\s*\([^)]*\)\s*\{", "b_set_errno")
+    m = _one(r"else\s+if\s*\(\s*ival\s*<\s*INT_MIN\s*\|\|\s*ival\s*>\s*INT_MAX\s*\)\s*\{[^{}]*return\s+NULL\s*;\s*\}", body,
+             "range check of b_set_errno")
+    head = " ".join(body[:m.start()].split())
+    if head != "long ival = PyLong_AsLong(arg); if (ival == -1 && PyErr_Occurred()) return NULL;":
+        raise U("b_set_errno: unexpected prologue %r" % head)
+    seq = []
+    for st in _stmts(body[m.end():]):
+        if st == "errno = (int)ival":
+            seq.append("EAssignErrno")
+        elif st == "save_errno_only()":
+            seq.append("ESaveOnly")
+        elif st == "errno = 0":
+            seq.append("EZeroErrno")
+        elif st in ("Py_INCREF(Py_None)", "return Py_None"):
+            continue
+        else:
+            raise U("b_set_errno: unexpected statement %r" % st)
+    f["gen_set_errno"] = seq
+    f["gen_set_errno_range"] = (-2 ** 31, 2 ** 31 - 1)          # INT_MIN, INT_MAX of the x86-64 SysV ABI
+    # exports used by API-mode modules
+    m = _one(r"static\s+void\s*\*\s*cffi_exports\s*\[\s*\]\s*=\s*\{(.*?)\}\s*;", back, "cffi_exports[]")
+    entries = [x.strip() for x in m.group(1).split(",") if x.strip()]
+    inc = _nocomment(_src("cffi/_cffi_include.h")).replace("\\\n", " ")
+    m1 = _one(r"#\s*define\s+_cffi_restore_errno\s+\(\(void\(\*\)\(void\)\)_cffi_exports\[(\d+)\]\)", inc,
+              "_cffi_restore_errno")
+    m2 = _one(r"#\s*define\s+_cffi_save_errno\s+\(\(void\(\*\)\(void\)\)_cffi_exports\[(\d+)\]\)", inc,
+              "_cffi_save_errno")
+    f["gen_api_export_slots_ok"] = (entries[int(m1.group(1))] == "restore_errno"
+                                    and entries[int(m2.group(1))] == "save_errno")
+    # call_python.c
+    cp = _nocomment(_src("c/call_python.c"))
+    body = _body(cp, r"static\s+void\s+cffi_call_python\s*\([^)]*\)\s*\{", "cffi_call_python")
+    toks = [(mm.start(), mm.group(0)) for mm in re.finditer(r"\bsave_errno\s*\(\s*\)|\brestore_errno\s*\(\s*\)|"
+                                                             r"\bgeneral_invoke_callback\s*\(|\breturn\b", body)]
+    seq = []
+    for _pos, tk in toks:
+        if tk.startswith("save_errno"):
+            seq.append("BSave")
+        elif tk.startswith("restore_errno"):
+            seq.append("BRestore")
+        elif tk.startswith("general_invoke_callback"):
+            seq.append("BForeign")
+        else:
+            raise U("cffi_call_python: a return statement could skip restore_errno()")
+    f["gen_call_python"] = seq
+    # cglob.c
+    cg = _nocomment(_src("c/cglob.c"))
+    f["gen_glob_fetch"] = _bracket(_allow_threads_region(cg, r"gs->gs_fetch_addr\s*\(\s*\)", "fetch_global_var_addr"),
+                                   r"gs->gs_fetch_addr\s*\(\s*\)", "fetch_global_var_addr")
+    # recompiler.py: what the generated wrapper contains between Py_BEGIN/END_ALLOW_THREADS
+    tree = py2coq.parse_source(os.path.join(vlib.REPO, "src", "cffi", "recompiler.py"))
+    fn = py2coq.find_function(tree, "_generate_cpy_function_decl", cls="Recompiler")
+    emitted = []
+    for node in ast.walk(fn):
+        if isinstance(node, ast.Expr) and isinstance(node.value, ast.Call) and isinstance(node.value.func, ast.Name) \
+                and node.value.func.id == "prnt" and node.value.args:
+            a = node.value.args[0]
+            if isinstance(a, ast.BinOp) and isinstance(a.op, ast.Mod):
+                a = a.left
+            if isinstance(a, ast.Constant) and isinstance(a.value, str):
+                emitted.append((node.lineno, a.value.strip()))
+    emitted.sort()
+    texts = [t for _l, t in emitted]
+    if texts.count("Py_BEGIN_ALLOW_THREADS") != 1 or texts.count("Py_END_ALLOW_THREADS") != 1:
+        raise U("recompiler: ALLOW_THREADS region not found exactly once")
+    region = texts[texts.index("Py_BEGIN_ALLOW_THREADS") + 1:texts.index("Py_END_ALLOW_THREADS")]
+    seq = []
+    for t in region:
+        if t == "_cffi_restore_errno();":
+            seq.append("BRestore")
+        elif t == "_cffi_save_errno();":
+            seq.append("BSave")
+        elif t == "{ %s%s(%s); }":
+            seq.append("BForeign")
+        else:
+            raise U("recompiler: unexpected line in the wrapper's call region: %r" % t)
+    f["gen_api_wrapper"] = seq
+    return f
+
+
+SNAPSHOT_FACTS = dict(
+    gen_saved_thread_local=True, gen_save_errno_only_copies_errno_to_saved=True,
+    gen_restore_errno_only_copies_saved_to_errno=True, gen_posix_aliases=True,
+    gen_b_call=["BRestore", "BForeign", "BSave"], gen_api_wrapper=["BRestore", "BForeign", "BSave"],
+    gen_api_export_slots_ok=True, gen_glob_fetch=["BRestore", "BForeign", "BSave"],
+    gen_invoke_callback=["BSave", "BForeign", "BRestore"], gen_call_python=["BSave", "BForeign", "BRestore"],
+    gen_get_errno=["ERestoreOnly", "EReadErrno", "EZeroErrno"], gen_set_errno=["EAssignErrno", "ESaveOnly", "EZeroErrno"],
+    gen_set_errno_range=(-2 ** 31, 2 ** 31 - 1))
+ORDER = ["gen_saved_thread_local", "gen_save_errno_only_copies_errno_to_saved",
+         "gen_restore_errno_only_copies_saved_to_errno", "gen_posix_aliases", "gen_b_call", "gen_api_wrapper",
+         "gen_api_export_slots_ok", "gen_glob_fetch", "gen_invoke_callback", "gen_call_python", "gen_get_errno",
+         "gen_set_errno", "gen_set_errno_range"]
+WHERE = dict(gen_saved_thread_local="misc_thread_common.h: storage class of cffi_saved_errno",
+             gen_b_call="_cffi_backend.c: statements around ffi_call() in b_call",
+             gen_api_wrapper="recompiler.py _generate_cpy_function_decl: lines emitted between Py_BEGIN/END_ALLOW_THREADS",
+             gen_api_export_slots_ok="_cffi_include.h slots of _cffi_restore_errno/_cffi_save_errno vs cffi_exports[]",
+             gen_glob_fetch="cglob.c fetch_global_var_addr", gen_invoke_callback="_cffi_backend.c invoke_callback",
+             gen_call_python="call_python.c cffi_call_python (no return between save and restore)",
+             gen_get_errno="_cffi_backend.c b_get_errno", gen_set_errno="_cffi_backend.c b_set_errno (after the range check)")
+
+
+def gen_text(f, origin):
+    out = ["(* C22/Gen.v — %s.  Do not edit: rewritten by tools/props/c22.py regen() on every run. *)" % origin,
+           "From Coq Require Import ZArith List Bool.", "Import ListNotations.", "From Cffi Require Import C22.Model.", ""]
+    for k in ORDER:
+        v = f[k]
+        if k in WHERE:
+            out.append("(* %s *)" % WHERE[k])
+        if isinstance(v, bool):
+            out.append("Definition %s : bool := %s." % (k, "true" if v else "false"))
+        elif isinstance(v, tuple):
+            out.append("Definition %s : Z * Z := (%d, %d)%%Z." % (k, v[0], v[1]))
+        else:
+            ty = "estep" if k in ("gen_get_errno", "gen_set_errno") else "bstep"
+            out.append("Definition %s : list %s := [%s]." % (k, ty, "; ".join(v)))
+    return "\n".join(out) + "\n"
+
+
+def regen(ctx):
+    try:
+        facts, status, origin = extract_facts(), None, "regenerated from src/c/*.c, *.h and src/cffi/recompiler.py"
+    except (U, OSError, SyntaxError, IndexError, ValueError) as e:
+        facts, status = dict(SNAPSHOT_FACTS), "fallback: %s" % e
+        origin = "SNAPSHOT (extraction from the current source failed)"
+    st = py2coq.write_if_changed(os.path.join(vlib.COQ, "C22", "Gen.v"), gen_text(facts, origin))
+    ctx.translator("C22/Gen.v", status or st)
+    ctx.extra["gen_facts_equal_snapshot"] = (facts == SNAPSHOT_FACTS)
 
 
 # ------------------------------------------------------------------ programs
@@ -35,8 +274,9 @@ def gen_py(rng, depth, mode, budget):
         budget[0] -= 1
         r = rng.random()
         if r < 0.22:
-            v = rng.choice(OVER_VALUES) if rng.random() < 0.12 else (
-                rng.choice(SET_VALUES) if rng.random() < 0.6 else rng.randrange(INT_MIN, INT_MAX + 1))
+            q = rng.random()
+            v = rng.choice(OVER_VALUES) if q < 0.12 else 0 if q < 0.34 else (
+                rng.choice(SET_VALUES) if q < 0.75 else rng.randrange(INT_MIN, INT_MAX + 1))
             ops.append(["set", v])
         elif r < 0.45:
             ops.append(["get"])
@@ -51,7 +291,8 @@ def gen_py(rng, depth, mode, budget):
                 if q < 0.35:
                     cops.append(["cread"])
                 elif q < 0.65:
-                    cops.append(["cset", rng.choice(C_VALUES) if rng.random() < 0.7
+                    q2 = rng.random()
+                    cops.append(["cset", 0 if q2 < 0.25 else rng.choice(C_VALUES) if q2 < 0.75
                                  else rng.randrange(INT_MIN, INT_MAX + 1)])
                 elif depth < 2:
                     cops.append(["cb", gen_py(rng, depth + 1, mode, budget)])
@@ -159,6 +400,20 @@ def directed(mode):
                                                                                ["cb", [["get"], ["set", 28]]],
                                                                                ["cread"]]], ["get"]]],
                                                 ["cread"]]], ["get"]]], sched=[0]))
+    # errno value 0 in every direction, with a non-zero errno left behind by the interpreter / by C before
+    cs.append(dict(mode=mode, progs=[[["set", 7], ["clobber"], ["set", 0], ["clobber"], ["call", [["cread"]]], ["get"]]],
+                   sched=[0]))
+    cs.append(dict(mode=mode, progs=[[["set", 7], ["call", [["cread"], ["cset", 0]]], ["clobber"], ["get"], ["get"]]],
+                   sched=[0]))
+    cs.append(dict(mode=mode, progs=[[["set", 9], ["call", [["cset", 5], ["cb", [["get"], ["set", 0], ["clobber"]]],
+                                                            ["cread"], ["cset", 0], ["cb", [["clobber"], ["get"]]],
+                                                            ["cread"]]], ["get"]]], sched=[0]))
+    cs.append(dict(mode=mode, progs=[[["set", 0], ["sync"], ["clobber"], ["call", [["cread"]]], ["get"]],
+                                     [["set", 13], ["sync"], ["call", [["cread"], ["cset", 0]]], ["get"]]],
+                   sched=[0, 1, 1, 0]))
+    if mode == "api":
+        cs.append(dict(mode=mode, progs=[[["set", 0], ["clobber"], ["glob"], ["get"], ["set", 4], ["glob"], ["get"]]],
+                       sched=[0]))
     return cs
 
 
